@@ -9,7 +9,8 @@ RULES = []  # list of RuleDef
 
 
 class RuleDef:
-    def __init__(self, rid, props, floor, fn, doc, family):
+    def __init__(self, rid, props, floor, fn, doc, family, inst_filter=None):
+        self.inst_filter = inst_filter or {}
         self.id = rid
         self.props = props
         self.floor = floor
@@ -18,12 +19,12 @@ class RuleDef:
         self.family = family
 
 
-def rule(rid, props, floor=1, family=None):
+def rule(rid, props, floor=1, family=None, inst_filter=None):
     """Register a rule. `props` maps property id -> one-line necessity argument.
     `floor` = number of instances counted by hand on the pinned tree; fewer evaluated
     instances is a violation (a rule matching nothing must not pass vacuously)."""
     def deco(fn):
-        RULES.append(RuleDef(rid, props, floor, fn, (fn.__doc__ or '').strip(), family or rid.split('-')[0]))
+        RULES.append(RuleDef(rid, props, floor, fn, (fn.__doc__ or '').strip(), family or rid.split('-')[0], inst_filter))
         return fn
     return deco
 
@@ -129,6 +130,9 @@ def run_rules(ctx, prop=None, only=None):
             tb = traceback.format_exc().splitlines()[-6:]
             ctx.shape('internal', None, 'rule raised %s: %s' % (type(e).__name__, e), details={'trace': tb})
         mine = [r for r in ctx.results[before:]]
+        for r in mine:
+            if r.props is None and rd.inst_filter:
+                r.props = [p for p in rd.props if p not in rd.inst_filter or rd.inst_filter[p](r.instance)]
         evaluated = [r for r in mine if r.status in ('ok', 'violation')]
         if len(evaluated) < rd.floor and not any(r.status == 'shape' for r in mine):
             ctx.shape('floor', None, 'rule %s evaluated %d instances, floor is %d (an anchor or idiom vanished)'
